@@ -488,6 +488,9 @@ pub fn crash_tables(version: u32) -> Tables {
     t.values.push(evil_value(version, 0, 17));
     t.values.push(evil_value(version, 1, 17));
     t.values.push(evil_value(version, 2, 17));
+    // the same forged record for other placements of the two-block value (blocks 17+18, 18+19)
+    t.values.push(evil_value(version, 0, 18));
+    t.values.push(evil_value(version, 0, 19));
     t
 }
 
@@ -515,6 +518,8 @@ pub fn crash_evil_ops() -> Vec<Op> {
         ins(a, V_EVIL_REC),
         ins(a, V_EVIL_MARK),
         ins(a, V_EVIL_LEGACY),
+        ins(a, 9),
+        ins(a, 10),
         ins(a, V_X),
         ins(b, V_X),
         Op::Delete { k: a, ts: 0 },
